@@ -529,8 +529,10 @@ class Resolver:
                 return prim("str")
             if txt == "struct.unpack":
                 return ("tuple", [prim("int")])
-            if txt in ("base64.b16decode",):
+            if txt in ("base64.b16decode", "bytes.fromhex", "binascii.unhexlify", "base64.b64decode"):
                 return prim("bytes")
+            if txt == "bytearray.fromhex":
+                return prim("bytearray")
             if txt == "int.__new__":
                 return UNK
             if txt == "object.__setattr__":
